@@ -28,6 +28,12 @@ CLAIMED = {
         ref="DESIGN.md §6 C07"),
 }
 
+CLAIMED["C11"] = dict(
+    text="Lean theorems about a transcription of container/heap (up/down/Push/Pop/Remove on an array) and of quartz/queue.go: heap order and key uniqueness are invariants of every operation sequence (C11_inv_reachable), Pop/Head return a minimum, Get/Remove address the entry with that key, duplicate pushes are rejected unless Replace and then replace exactly that entry, ScheduledJobs returns exactly the entries satisfying all matchers, string operators mean prefix/suffix/infix/equality. Tie: exact differential execution incl. heap array order against quartz.NewJobQueue() (random and exhaustive-small op sequences) plus an abstract key->entry map oracle in the harness.",
+    note="container/heap is modelled (transcribed) and compared, not verified; thread-safety of the queue's own mutex is outside the model",
+    technique="Lean 4 invariant + refinement proofs over all op sequences + exact differential correspondence",
+    ref="DESIGN.md §6 C11")
+
 REASON_PENDING = "check not built yet (build phase in progress); planned per DESIGN.md §6"
 
 m = {
